@@ -32,6 +32,10 @@ pub enum Op {
     /// rcu with the closure `|v| v + 1` on the content (a fresh allocation per attempt); the
     /// returned previous value goes to `out`.
     Rcu { c: usize, out: usize },
+    /// rcu whose closure panics on its `at`-th attempt (1-based); C18
+    RcuPanic { c: usize, at: usize },
+    /// a fresh value whose destructor panics (once, when the value is destroyed); C18
+    NewP { h: usize, val: u64 },
     CInto { c: usize, h: usize },
     DropC { c: usize },
     SetGen { v: u64 },
@@ -65,6 +69,8 @@ impl Op {
                 g
             ),
             Rcu { c, out } => format!("rcu c{} h{}", c, out),
+            RcuPanic { c, at } => format!("rcupanic c{} {}", c, at),
+            NewP { h, val } => format!("newp h{} {}", h, val),
             CInto { c, h } => format!("cinto c{} h{}", c, h),
             DropC { c } => format!("dropc c{}", c),
             SetGen { v } => format!("setgen {}", v),
@@ -100,6 +106,8 @@ impl Op {
                 g: r(g)?,
             },
             ["rcu", c, o] => Op::Rcu { c: r(c)?, out: r(o)? },
+            ["rcupanic", c, k] => Op::RcuPanic { c: r(c)?, at: k.parse().ok()? },
+            ["newp", h, v] => Op::NewP { h: r(h)?, val: v.parse().ok()? },
             ["cinto", c, h] => Op::CInto { c: r(c)?, h: r(h)? },
             ["dropc", c] => Op::DropC { c: r(c)? },
             ["setgen", v] => Op::SetGen { v: v.parse().ok()? },
@@ -158,6 +166,8 @@ pub struct GenCfg {
     pub with_null: bool,
     pub drop_containers: bool,
     pub setgen: Option<u64>,
+    /// inject panics in user code (rcu closure, pointee destructor)
+    pub panics: bool,
 }
 
 /// Type-directed generation: registers are tracked abstractly per thread so that most operations
@@ -231,6 +241,9 @@ pub fn generate(rng: &mut Rng, cfg: &GenCfg) -> Program {
                 let i = (0..HPT).find(|&i| !hfull[i])?;
                 if cfg.with_null && rng.chance(1, 8) {
                     ops.push(Op::NullH { h: hbase + i });
+                } else if cfg.panics && rng.chance(1, 4) {
+                    ops.push(Op::NewP { h: hbase + i, val: next_val * 100 });
+                    next_val += 1;
                 } else {
                     ops.push(Op::New { h: hbase + i, val: next_val * 100 });
                     next_val += 1;
@@ -311,7 +324,9 @@ pub fn generate(rng: &mut Rng, cfg: &GenCfg) -> Program {
                     }
                 }
                 7 => {
-                    if let Some(i) = free_h {
+                    if cfg.panics && rng.chance(1, 2) {
+                        ops.push(Op::RcuPanic { c, at: rng.range(1, 4) });
+                    } else if let Some(i) = free_h {
                         ops.push(Op::Rcu { c, out: hbase + i });
                         hfull[i] = true;
                     }
